@@ -785,7 +785,7 @@ Section Part1.
 
   (* dom_plain: decidable, computed along the traversal `process` makes (ancestor chain, element
      indices); says that (a) no element that `process` reaches is hidden by CSS (Prune.hidden:
-     its computed display is none) and (b) no <sup> element is rendered with the superscript
+     its computed display is none, i.e. the display cell is `Some true`) and (b) no <sup> element is rendered with the superscript
      digit replacement (recorded deviation (iv) `sup_digits...`: the processed children are a
      single all-digit text). *)
   Fixpoint plain (n : node) (p : list anc) (idx : Z) {struct n} : bool :=
@@ -838,7 +838,11 @@ Section Part1.
     apply negb_true_iff in Hh. unfold hidden in Hh.
     bind_inv H inls Hinl. rewrite Hinl in Hh.
     set (computed := computed_style sd me inls) in *.
-    destruct (ws_val (c_display (cs_core computed))); [discriminate Hh|]. clear Hh.
+    assert (Hm : forall (X : Type) (a b : X),
+               match ws_val (c_display (cs_core computed)) with Some true => a | _ => b end = b).
+    { intros X a b. destruct (ws_val (c_display (cs_core computed))) as [[|]|];
+        [discriminate Hh|reflexivity|reflexivity]. }
+    rewrite Hm in H. clear Hm Hh.
     bind_inv H base Hbase.
     assert (Er : r = post computed (fragment_of name (html && names [[97]] name) attrs) base).
     { unfold post. destruct (fragment_of name (html && names [[97]] name) attrs) as [f|].
@@ -1466,7 +1470,11 @@ Section MT.
     apply negb_true_iff in Hh. unfold hidden in Hh.
     bind_inv H inls Hinl. rewrite Hinl in Hh.
     set (computed := computed_style sd me inls) in *.
-    destruct (ws_val (c_display (cs_core computed))); [discriminate Hh|]. clear Hh.
+    assert (Hm : forall (X : Type) (a b : X),
+               match ws_val (c_display (cs_core computed)) with Some true => a | _ => b end = b).
+    { intros X a b. destruct (ws_val (c_display (cs_core computed))) as [[|]|];
+        [discriminate Hh|reflexivity|reflexivity]. }
+    rewrite Hm in H. clear Hm Hh.
     bind_inv H base Hbase.
     assert (Er : r = post computed (frag_name html name attrs) base).
     { unfold post, frag_name. destruct (fragment_of name (html && names [[97]] name) attrs) as [f|].
@@ -1949,6 +1957,15 @@ Lemma base_of_congr K attrs computed cs1 cs2 :
 Proof. intros H. rewrite !base_of_norm, H. reflexivity. Qed.
 
 (* ---------- the body of `process` and the child loop ---------- *)
+(* `process` hides exactly on a display cell `Some true`; the other two cases share one body *)
+Lemma disp_match_congr {X Y : Type} (f : X -> Y) (d : option bool) (a x1 x2 : X) :
+  f x1 = f x2 ->
+  f (match d with Some true => a | _ => x1 end) = f (match d with Some true => a | _ => x2 end).
+Proof. intros H. destruct d as [[|]|]; [reflexivity|exact H|exact H]. Qed.
+Lemma disp_match_inv {X : Type} (d : option bool) (a b y : X) :
+  match d with Some true => a | _ => b end = y -> a <> y -> b = y.
+Proof. intros H Ha. destruct d as [[|]|]; [contradiction|exact H|exact H]. Qed.
+
 Lemma pbody_congr sd ri html name attrs me rk1 rk2 :
   rmap (map NT) rk1 = rmap (map NT) rk2 ->
   rmap (option_map NT) (pbody sd ri html name attrs me rk1) =
@@ -1956,7 +1973,7 @@ Lemma pbody_congr sd ri html name attrs me rk1 rk2 :
 Proof.
   intros H. unfold pbody. destruct ri as [inls| | |]; cbn [bind]; try reflexivity.
   set (computed := computed_style sd me inls).
-  destruct (ws_val (c_display (cs_core computed))); [reflexivity|].
+  apply disp_match_congr.
   fold (frag_name html name attrs).
   set (b1 := if negb html then _ else _).
   match goal with |- _ = rmap _ (do base <- ?b; _) => set (b2 := b) end.
@@ -2112,15 +2129,25 @@ Print Assumptions c13_dom_nodoccss.
 (* 5. A purely syntactic sufficient condition for doc_plain             *)
 (* ================================================================== *)
 
-(* (a) no display:none anywhere in the style data, document CSS off *)
+(* (a) no display:none anywhere in the style data, document CSS off (declarations of another
+   display value, `SDisplay false`, are harmless: they can only un-hide) *)
 Definition decl_no_hide (sdl : styledecl) : bool :=
-  match sd_style sdl with SDisplayNone => false | _ => true end.
+  match sd_style sdl with SDisplay true => false | _ => true end.
 Definition rules_no_hide (rs : list ruleset) : bool :=
   forallb (fun r => forallb decl_no_hide (rs_styles r)) rs.
 Definition sheet_no_hide (sd : styledata) : bool :=
   rules_no_hide (agent_rules sd) && rules_no_hide (user_rules sd) && rules_no_hide (author_rules sd).
 
-Definition shown (cs : cstyle) : Prop := ws_val (c_display (cs_core cs)) = None.
+Definition shown (cs : cstyle) : Prop := ws_val (c_display (cs_core cs)) <> Some true.
+
+Lemma maybe_update_false (w : withspec bool) imp o sp :
+  ws_val w <> Some true -> ws_val (maybe_update w imp o sp false) <> Some true.
+Proof.
+  intros Hw. unfold maybe_update. destruct (ws_val w) eqn:E; [|cbn [ws_val]; discriminate].
+  assert (Hw' : ws_val w <> Some true) by (rewrite E; exact Hw).
+  repeat match goal with |- context [if ?c then _ else _] => destruct c end;
+    first [exact Hw'|cbn [ws_val]; discriminate].
+Qed.
 
 Lemma merge_shown cs imp o sp ps sdl :
   decl_no_hide sdl = true -> shown cs ->
@@ -2128,7 +2155,8 @@ Lemma merge_shown cs imp o sp ps sdl :
 Proof.
   unfold decl_no_hide, shown. intros Hd Hs.
   destruct ps as [[|]|]; cbn [merge_computed_style cs_core]; try exact Hs.
-  destruct (sd_style sdl); try discriminate Hd; cbn [merge_core c_display]; exact Hs.
+  destruct (sd_style sdl) as [| |[|]| |]; try discriminate Hd; cbn [merge_core c_display]; try exact Hs.
+  apply maybe_update_false, Hs.
 Qed.
 
 Lemma fold_merge_shown (f : styledecl -> bool * origin * spec * option pseudo) : forall l cs,
@@ -2156,11 +2184,15 @@ Proof.
   unfold sheet_no_hide. intros H. apply andb_true_iff in H. destruct H as [H H3].
   apply andb_true_iff in H. destruct H as [H1 H2]. unfold computed_style. cbn [fold_left].
   apply apply_rules_shown; [exact H3|]. apply apply_rules_shown; [exact H2|].
-  apply apply_rules_shown; [exact H1|]. reflexivity.
+  apply apply_rules_shown; [exact H1|]. unfold shown. cbn. discriminate.
 Qed.
 
 Lemma hidden_false sd inl me attrs : sheet_no_hide sd = true -> hidden sd false inl me attrs = false.
-Proof. intros H. unfold hidden. rewrite (computed_shown sd me H). reflexivity. Qed.
+Proof.
+  intros H. unfold hidden. pose proof (computed_shown sd me H) as Hs. unfold shown in Hs.
+  destruct (ws_val (c_display (cs_core (computed_style sd me [])))) as [[|]|];
+    [exfalso; apply Hs; reflexivity|reflexivity|reflexivity].
+Qed.
 
 (* (b) no <sup> element has an all-digit text node among its children *)
 Definition digit_text (k : node) : bool :=
@@ -2210,7 +2242,7 @@ Lemma process_elem_not_text sd udc inl html name attrs kids p idx x :
 Proof.
   rewrite process_eq. unfold pbody. intros H. bind_inv H inls Hinl.
   set (computed := computed_style sd _ inls) in *.
-  destruct (ws_val (c_display (cs_core computed))); [discriminate H|].
+  apply disp_match_inv in H; [|discriminate].
   bind_inv H base Hbase.
   assert (Hb : forall b, base = Some b -> is_text b = false).
   { intros b ->. destruct html; cbn [negb] in Hbase.
@@ -2526,6 +2558,18 @@ Example need_shown :
   rep (set_doc_css cfg_plain) [el "p" [("style","display:none")] [tx 100 "h"]; el "p" [] [tx 110 "v"]] =
   (true, false, [100; 110], Some [110]).
 Proof. vm_compute. reflexivity. Qed.
+(* ... but a winning display value other than none (cell `Some false`) does not hide: the inline
+   display:block beats the sheet's p{display:none}; doc_plain holds and nothing is lost *)
+Example shown_other_display :
+  rep (set_doc_css cfg_plain)
+      [el "style" [] [txc "p{display:none}"]; el "p" [("style","display:block")] [tx 100 "v"]] =
+  (true, true, [100], Some [100]).
+Proof. vm_compute. reflexivity. Qed.
+(* the syntactic condition allows display declarations of another value, and rejects display:none *)
+Example sheet_no_hide_other :
+  sheet_no_hide (mkstd [] [] [mkrs (mksel [] None) [mksd (SDisplay false) true]]) = true /\
+  sheet_no_hide (mkstd [] [] [mkrs (mksel [] None) [mksd (SDisplay true) false]]) = false.
+Proof. vm_compute. split; reflexivity. Qed.
 
 (* PART 3: <p>hello   world\n again<b> x  </b></p>  <p>z</p>  against
            <p>hello world again<b>\tx </b></p>\n<p>z</p> *)
@@ -2581,8 +2625,9 @@ End DomRelExamples.
                            <sup> is rendered with the digit replacement (sup_digits of its processed
                            children = None)
      sheet_no_hide, dom_nsd  syntactic sufficient condition for doc_plain when document CSS is off
-                           (doc_plain_suff): no display:none in the style data; no <sup> with an
-                           all-digit text child
+                           (doc_plain_suff): no display:none (`SDisplay true`) in the style data
+                           - display declarations of another value, `SDisplay false`, are
+                           allowed: they can only un-hide; no <sup> with an all-digit text child
      dom_ntab doc          no HTML table/thead/tbody/tr/th/td element (Part 2: FragStream.mtree
                            does not cover tables)
      dom_all / dom_live    Part 2 specification streams: visible characters and the marker of
